@@ -94,7 +94,7 @@ Lemma step_ext_spec : forall T K cfg r, lib_ok r ->
   end.
 Proof.
   intros T K cfg r L. apply lib_ok_parts in L as (Hc & He & _).
-  unfold step_ext. destruct (_ && _ && _ && _).
+  unfold step_ext. match goal with |- context [if ?c then _ else _] => destruct c end.
   - destruct (q_ext r) as [e|cols rows]; simpl in He.
     + split; [cbv; tauto | split; [apply any_exception_allowed; [exact He | exact I] | reflexivity]].
     + exact He.
@@ -119,73 +119,51 @@ Proof.
     destruct Hs as [[_ ->]|[[_ ->]|[_ ->]]]; (split; [cbv; tauto | split; [exact Ha | rewrite C; reflexivity]]).
 Qed.
 
+Lemma step_after_raise : forall T cfg r cols rows rel s e, lib_ok r -> forallb exc_ok cols = true ->
+  step_after r cols rows rel = Raise s e -> post_raise T cfg s e.
+Proof.
+  intros T cfg r cols rows rel s e L Hc H.
+  pose proof (lib_ok_parts r L) as (_ & _ & _ & _ & Hrel & _).
+  unfold step_after in H. cbv zeta in H.
+  assert (Hrelease : forall x : flow unit,
+            (if rel then match q_release r with Some e => Raise SRelease e | None => x end else x) = Raise s e ->
+            (x = Raise s e) \/ (s = SRelease /\ q_release r = Some e)).
+  { intros x Hx. destruct rel; [|left; exact Hx]. destruct (q_release r) as [y|]; [|left; exact Hx].
+    inversion Hx; subst. right; split; reflexivity. }
+  destruct (nonempty cols && negb (rows =? 1)).
+  - apply Hrelease in H as [H|[-> Q]].
+    + inversion H; subst. post_site.
+    + rewrite Q in Hrel. simpl in Hrel. split; [cbv; tauto | split; [exact Hrel | reflexivity]].
+  - destruct (first_some cols) as [x|] eqn:F.
+    + apply Hrelease in H as [H|[-> Q]].
+      * inversion H; subst. apply first_some_in in F.
+        split; [cbv; tauto | split; [exact (cols_ok_in _ _ Hc F) | reflexivity]].
+      * rewrite Q in Hrel. simpl in Hrel. split; [cbv; tauto | split; [exact Hrel | reflexivity]].
+    + apply Hrelease in H as [H|[-> Q]]; [discriminate|].
+      rewrite Q in Hrel. simpl in Hrel. split; [cbv; tauto | split; [exact Hrel | reflexivity]].
+Qed.
+
 Lemma step_shm_raise : forall T K cfg st r cols rows s e, lib_ok r -> forallb exc_ok cols = true ->
   step_shm T K cfg st r cols rows = Raise s e -> post_raise T cfg s e.
 Proof.
   intros T K cfg st r cols rows s e L Hc H.
-  pose proof (lib_ok_parts r L) as (_ & _ & _ & Hr & Hrel & _).
-  unfold step_shm in H.
+  pose proof (lib_ok_parts r L) as (_ & _ & _ & Hr & _).
+  unfold step_shm in H. cbv zeta in H.
+  assert (Hrest : forall att : bool,
+     (if (c_static_shm cfg || match st with Some _ => c_in_loop cfg | None => false end || att) && is_shm_pointer K rows r
+      then match q_shmres r with RRaises e => Raise SResolveShm e | RBatch cols' rows' => step_after r cols' rows' true end
+      else step_after r cols rows false) = Raise s e -> post_raise T cfg s e).
+  { intros att HH.
+    match type of HH with (if ?c then _ else _) = _ => destruct c end.
+    - destruct (q_shmres r) as [x|cols' rows']; simpl in Hr.
+      + inversion HH; subst. split; [cbv; tauto | split; [exact Hr | reflexivity]].
+      + eapply step_after_raise; [exact L | exact Hr | exact HH].
+    - eapply step_after_raise; [exact L | exact Hc | exact HH]. }
   match type of H with context [if ?c then maybe_attach _ _ _ _ _ _ else _] => destruct c end.
   - destruct (maybe_attach T K cfg SRrShmMeta SRrAttach r) as [s0 e0|att] eqn:M.
     + inversion H; subst. eapply maybe_attach_raise; [exact L | left; split; reflexivity | exact M].
-    + (* the rest is the same whatever was attached *)
-      assert (Hafter : forall cols' rows' rel,
-        forallb exc_ok cols' = true ->
-        (let fin (x : flow unit) := if rel then match q_release r with Some e => Raise SRelease e | None => x end else x in
-         if nonempty cols' && negb (rows' =? 1) then fin (Raise SRows XRpcError)
-         else match first_some cols' with Some e => fin (Raise SAsPy e) | None => fin (Go tt) end) = Raise s e ->
-        post_raise T cfg s e).
-      { intros cols' rows' rel Hc' HH. cbv zeta in HH.
-        assert (Hrelease : forall x, (if rel then match q_release r with Some e => Raise SRelease e | None => x end else x) = Raise s e ->
-                  (x = Raise s e) \/ (s = SRelease /\ q_release r = Some e)).
-        { intros x Hx. destruct rel; [|left; exact Hx]. destruct (q_release r) as [y|]; [|left; exact Hx].
-          inversion Hx; subst. right; split; reflexivity. }
-        destruct (nonempty cols' && negb (rows' =? 1)).
-        - apply Hrelease in HH as [HH|[-> Q]].
-          + inversion HH; subst. post_site.
-          + rewrite Q in Hrel. simpl in Hrel. split; [cbv; tauto | split; [exact Hrel | reflexivity]].
-        - destruct (first_some cols') as [x|] eqn:F.
-          + apply Hrelease in HH as [HH|[-> Q]].
-            * inversion HH; subst. apply first_some_in in F.
-              split; [cbv; tauto | split; [exact (cols_ok_in _ _ Hc' F) | reflexivity]].
-            * rewrite Q in Hrel. simpl in Hrel. split; [cbv; tauto | split; [exact Hrel | reflexivity]].
-          + apply Hrelease in HH as [HH|[-> Q]]; [discriminate|].
-            rewrite Q in Hrel. simpl in Hrel. split; [cbv; tauto | split; [exact Hrel | reflexivity]]. }
-      cbv zeta in H.
-      match type of H with context [if ?c then match q_shmres r with _ => _ end else _] => destruct c end.
-      * destruct (q_shmres r) as [x|cols' rows']; simpl in Hr.
-        -- inversion H; subst. split; [cbv; tauto | split; [exact Hr | reflexivity]].
-        -- eapply Hafter; [exact Hr | exact H].
-      * eapply Hafter; [exact Hc | exact H].
-  - (* no attach attempted *)
-    assert (Hafter : forall cols' rows' rel,
-        forallb exc_ok cols' = true ->
-        (let fin (x : flow unit) := if rel then match q_release r with Some e => Raise SRelease e | None => x end else x in
-         if nonempty cols' && negb (rows' =? 1) then fin (Raise SRows XRpcError)
-         else match first_some cols' with Some e => fin (Raise SAsPy e) | None => fin (Go tt) end) = Raise s e ->
-        post_raise T cfg s e).
-    { intros cols' rows' rel Hc' HH. cbv zeta in HH.
-      assert (Hrelease : forall x, (if rel then match q_release r with Some e => Raise SRelease e | None => x end else x) = Raise s e ->
-                (x = Raise s e) \/ (s = SRelease /\ q_release r = Some e)).
-      { intros x Hx. destruct rel; [|left; exact Hx]. destruct (q_release r) as [y|]; [|left; exact Hx].
-        inversion Hx; subst. right; split; reflexivity. }
-      destruct (nonempty cols' && negb (rows' =? 1)).
-      - apply Hrelease in HH as [HH|[-> Q]].
-        + inversion HH; subst. post_site.
-        + rewrite Q in Hrel. simpl in Hrel. split; [cbv; tauto | split; [exact Hrel | reflexivity]].
-      - destruct (first_some cols') as [x|] eqn:F.
-        + apply Hrelease in HH as [HH|[-> Q]].
-          * inversion HH; subst. apply first_some_in in F.
-            split; [cbv; tauto | split; [exact (cols_ok_in _ _ Hc' F) | reflexivity]].
-          * rewrite Q in Hrel. simpl in Hrel. split; [cbv; tauto | split; [exact Hrel | reflexivity]].
-        + apply Hrelease in HH as [HH|[-> Q]]; [discriminate|].
-          rewrite Q in Hrel. simpl in Hrel. split; [cbv; tauto | split; [exact Hrel | reflexivity]]. }
-    cbv zeta in H.
-    match type of H with context [if ?c then match q_shmres r with _ => _ end else _] => destruct c end.
-    + destruct (q_shmres r) as [x|cols' rows']; simpl in Hr.
-      * inversion H; subst. split; [cbv; tauto | split; [exact Hr | reflexivity]].
-      * eapply Hafter; [exact Hr | exact H].
-    + eapply Hafter; [exact Hc | exact H].
+    + exact (Hrest att H).
+  - exact (Hrest false H).
 Qed.
 
 Lemma read_request_raise : forall T K cfg st r s e, lib_ok r ->
